@@ -84,6 +84,35 @@ theorem aggRow_no_aggr {sl : List DerivedCol} (hagg : hasAggr sl = false) {g : G
       exact Bool.eq_false_iff.mpr hd
     exact aggCell_no_aggr hd' hr (by omega)
 
+/-- the positions `aggregateRows` resolves the GROUP BY references to are select-list positions -/
+theorem groupIdxs_lt {sl : List DerivedCol} {groupBy : List ColRef} {idxs : List Nat}
+    (h : groupIdxs sl groupBy = .ok idxs) : ∀ i ∈ idxs, i < sl.length := by
+  intro i hi
+  have hw := mapX_wp (E := NoP) (fun (_ : ColRef) (i : Nat) => i < sl.length)
+    (fun g => match groupIdx sl g with | some i => pure i | none => X.err .groupByNotSelected) groupBy
+    (by
+      intro g _
+      split
+      · rename_i j hj
+        unfold groupIdx at hj
+        exact List.mem_range.1 (List.mem_of_find?_eq_some hj)
+      · trivial)
+  obtain ⟨_, _, hlt⟩ := (hw.of_ok h).2 i hi
+  exact hlt
+
+/-- after a select list that starts with `*` (rows not projected) and holds no aggregate, the loop
+touches no cell: the output row of a group is its first row too -/
+theorem aggStarRow_no_aggr (g : Group) : ∀ (l : List (Nat × DerivedCol)) (out : Row),
+    (∀ p ∈ l, hasAggr [p.2] = false) → aggStarRow g l out = .ok out
+  | [], _, _ => rfl
+  | (i, d) :: rest, out, h => by
+    have hd := h (i, d) (List.mem_cons_self ..)
+    unfold aggStarRow
+    split
+    · rename_i e; simp [hasAggr, e] at hd
+    · rename_i e; simp [hasAggr, e] at hd
+    · exact aggStarRow_no_aggr g rest out (fun p hp => h p (List.mem_cons_of_mem _ hp))
+
 /-- **the result, as a function of the input**: the first row of every group -/
 theorem aggregateRows_group_no_aggr_eq {sl : List DerivedCol} {groupBy : List ColRef}
     {rows : List Row} {idxs : List Nat} (hagg : hasAggr sl = false) (hne : groupBy ≠ [])
@@ -100,6 +129,28 @@ theorem aggregateRows_group_no_aggr_eq {sl : List DerivedCol} {groupBy : List Co
       m = .ok idxs → (m >>= f) = f idxs := by
     intro m f h; rw [h]; rfl
   refine (hbind _ _ hidx).trans ?_
+  split
+  · -- `*, …` without an aggregate: the rows are not projected, the group key stays within them
+    unfold aggregateStar
+    have hany : (rows.any fun r => idxs.any fun i => decide (r.length ≤ i)) = false := by
+      rw [List.any_eq_false]
+      intro r hr
+      rw [Bool.not_eq_true, List.any_eq_false]
+      intro i hi
+      have := groupIdxs_lt hidx i hi
+      rw [hlen r hr]
+      simp only [decide_eq_true_eq]
+      omega
+    rw [hany]
+    simp only [Bool.false_eq_true, if_false]
+    show mapX _ (groupsOf (groupKey idxs) rows) = _
+    apply mapX_eq_ok_map
+    intro g _
+    apply aggStarRow_no_aggr
+    intro p hp
+    have hd := (List.any_eq_false.mp hagg) p.2 (List.of_mem_zip hp).2
+    simp only [hasAggr, List.any_cons, List.any_nil, Bool.or_false]
+    exact Bool.eq_false_iff.mpr hd
   show mapX _ (groupsOf (groupKey idxs) rows) = _
   apply mapX_eq_ok_map
   intro g hg
